@@ -205,6 +205,44 @@ Theorem binary_overrides_norm : forall b, overrides (norm_binary b) = overrides 
 Proof. intros [k [a|]]; reflexivity. Qed.
 
 (* ------------------------------------------------------------------------------------------------ *)
+(** * ElectrolytePcSaftBinaryRecord { k_ij: Vec<f64> (default, ALWAYS written), flatten Option<BinaryAssociationRecord> }
+      k_ij holds the coefficients of the temperature polynomial; all of them matter, also when the constant one is 0 *)
+Record sebinary := mkSEB { eb_kij : list Z; eb_assoc : option sbassoc }.
+
+Definition print_ebinary (b : sebinary) : jobj :=
+  [("k_ij", JArr (eb_kij b))] ++ match eb_assoc b with Some a => print_bassoc a | None => [] end.
+
+Definition parse_ebinary (o : jobj) : option sebinary :=
+  match jget "k_ij" o with
+  | None => Some (mkSEB [] (parse_bassoc o))
+  | Some (JArr v) => Some (mkSEB v (parse_bassoc o))
+  | Some _ => None
+  end.
+
+Definition norm_ebinary (b : sebinary) : sebinary :=
+  mkSEB (eb_kij b) (match eb_assoc b with Some a => Some a | None => Some (mkSBA None None None) end).
+
+Definition ebinary_ok (b : sebinary) : Prop := match eb_assoc b with Some a => sites_ok a | None => True end.
+
+Theorem ebinary_roundtrip : forall b, ebinary_ok b -> parse_ebinary (print_ebinary b) = Some (norm_ebinary b).
+Proof.
+  intros [k [[[ka|] [ea|] [[i j]|]]|]] Hok; unfold parse_ebinary, print_ebinary, print_bassoc, parse_bassoc, norm_ebinary; simpl in *;
+  try reflexivity; unfold sites_ok in Hok; simpl in Hok;
+  destruct i as [|i]; destruct j as [|j]; simpl; try reflexivity; exfalso; now apply Hok.
+Qed.
+
+(** every coefficient survives the round trip, whatever its value and whatever the value of the constant term *)
+Theorem ebinary_kij_preserved : forall b b', ebinary_ok b -> parse_ebinary (print_ebinary b) = Some b' -> eb_kij b' = eb_kij b.
+Proof. intros b b' Hok H. rewrite (ebinary_roundtrip b Hok) in H. inversion H. reflexivity. Qed.
+
+Theorem ebinary_print_norm : forall b, print_ebinary (norm_ebinary b) = print_ebinary b.
+Proof. intros [k [a|]]; reflexivity. Qed.
+
+Example ex_ebinary_zero_constant_term :
+  parse_ebinary (print_ebinary (mkSEB [0; 4; 0; 0]%Z None)) = Some (mkSEB [0; 4; 0; 0]%Z (Some (mkSBA None None None))).
+Proof. reflexivity. Qed.
+
+(* ------------------------------------------------------------------------------------------------ *)
 (** * PureRecord<PcSaftRecord>, BinaryRecord<Identifier, PcSaftBinaryRecord>, ChemicalRecord *)
 Record spure := mkSPure { pu_id : sident; pu_mw : Z; pu_model : spcsaft }.
 
